@@ -211,6 +211,22 @@ func (e *Engine) eval(env *Env, n *cexpr.Node) Value {
 		body := e.evalBool(c, n.Args[0])
 		// facts added while evaluating the body become part of the body
 		extra := scratch.pc.list()[lenPC(saved.pc):]
+		// type facts about quantified reads (value ranges of elements, allocation of references) hold for every
+		// index: they are assumed universally instead of weakening the body
+		if len(extra) > 0 && !saved.pure {
+			var keep, facts []*smt.Term
+			for _, x := range extra {
+				if scratch.facts[x] && !saved.facts[x] {
+					facts = append(facts, x)
+				} else {
+					keep = append(keep, x)
+				}
+			}
+			if len(facts) > 0 {
+				saved.assume(smt.Forall(bound, smt.And(facts...)))
+			}
+			extra = keep
+		}
 		if len(extra) > 0 {
 			if n.Kind == "forall" {
 				body = smt.Implies(smt.And(extra...), body)
@@ -218,12 +234,18 @@ func (e *Engine) eval(env *Env, n *cexpr.Node) Value {
 				body = smt.And(append(extra, body)...)
 			}
 		}
-		if len(bound) == 1 {
+		var pats []*smt.Term
+		for _, pn := range n.Args[1:] {
+			if t := valueTerm(e.eval(c, pn)); t != nil {
+				pats = append(pats, t)
+			}
+		}
+		if len(bound) == 1 && len(pats) == 0 {
 			nb, nbody := smt.Rebase(bound[0], body)
 			bound, body = []*smt.Term{nb}, nbody
 		}
 		if n.Kind == "forall" {
-			return BoolV{smt.Forall(bound, body)}
+			return BoolV{smt.Forall(bound, body, pats...)}
 		}
 		return BoolV{smt.Exists(bound, body)}
 	case "sel":
@@ -303,7 +325,7 @@ func (e *Engine) evalIdent(env *Env, name string) Value {
 		}
 	}
 	switch name {
-	case "snap":
+	case "snap", "ismap", "anyref":
 		return FuncRefV{Name: name}
 	case "isint64", "isfloat64", "isstring", "isbool", "anyint", "anystr", "anybool", "isjsonnumber":
 		return FuncRefV{Name: name}
@@ -770,6 +792,10 @@ func (e *Engine) evalCall(env *Env, n *cexpr.Node) Value {
 		name := elemHeapName(x.Elem, ls[0].Suffix)
 		h := env.st.heap(name, smt.ArrayOf(smt.ArrayOf(ls[0].Sort)))
 		return SnapV{Arr: smt.Select(h, x.Arr), Off: x.Off, Len: x.Len, Elem: x.Elem}
+	case "ismap":
+		return BoolV{anyIs(e.eval(env, args[0]).(AnyV).T, types.NewMap(types.Typ[types.String], types.Universe.Lookup("any").Type()))}
+	case "anyref":
+		return IntV{smt.AppS("val_r", smt.Int, e.eval(env, args[0]).(AnyV).T)}
 	case "isint64":
 		return BoolV{anyIs(e.eval(env, args[0]).(AnyV).T, types.Typ[types.Int64])}
 	case "isfloat64":
